@@ -234,6 +234,14 @@ def task_dipole_rows(ctx):
     dipole_contract(ctx)
 
 
+def task_response_rows(ctx):
+    """Canon_DM_PRT (density response used by the KSA kernels): row b of the response mentions only molecule b (contract shared
+    with C09's canon_dm_prt)."""
+    from contracts.C09_xlbomd import task_canon_dm_prt
+
+    task_canon_dm_prt(ctx)
+
+
 def task_coupled_ops(ctx):
     """Batch-coupled reductions in the iterative SCF code are enumerated and compared with a declared allow-list."""
     import seqm.seqm_functions.scf_loop as S_
@@ -477,5 +485,5 @@ def task_density_rows(ctx):
     ctx.assume_note("A2: the eigen-solver returns some eigenvector matrix per molecule (columns ascending in energy); CHECK_DEGENERACY off (module default)")
 
 
-TASKS_QUICK = ["density_rows", "fermi_rows", "dipole_rows", "parser_rows", "fock_rows", "pack_unpack", "coupled_ops"]
+TASKS_QUICK = ["density_rows", "fermi_rows", "response_rows", "dipole_rows", "parser_rows", "fock_rows", "pack_unpack", "coupled_ops"]
 TASKS_THOROUGH = TASKS_QUICK
